@@ -141,4 +141,111 @@ def run (s : State) : List Op → State
 /-- Sum of the sizes of the resident entries. -/
 def total (ll : List Entry) : Nat := (ll.map (·.size)).sum
 
+/-! ## The machine arithmetic of `Put` / `evict` / `LoadAndDelete`
+
+The model above computes on `Nat` (`sub64`, `add64` are the exact operations).
+What follows makes explicit WHICH `uint64` operations the Go code performs, with
+which operands, so that "the counter arithmetic never wraps" is a statement about
+the code's own intermediate values (`C16_no_overflow`), and gives the wrap-around
+reading of a `uint64` expression, so that the eviction loop's condition as found
+in the source can be compared with the model's for ALL word values
+(`C16_evict_condition`). -/
+
+/-- One `uint64` operation performed by the Go code, with its operands. -/
+inductive Arith where
+  | sub (a b : Nat)   -- `a - b`
+  | add (a b : Nat)   -- `a + b`
+deriving DecidableEq, Repr
+
+/-- The operation does not wrap: operands and exact result lie in `[0, 2^64)`. -/
+def Arith.exact : Arith → Bool
+  | .sub a b => decide (b ≤ a) && decide (a < two64)
+  | .add a b => decide (a + b < two64)
+
+/-- The arithmetic of `Cache.evict(needed)`, in execution order, following
+`evictLoop` clause by clause: every evaluation of the loop condition computes
+`c.capacity - c.size`; an eviction computes `c.size -= es`; the "should never
+happen" error on an empty list formats `needed - (c.capacity - c.size)`. -/
+def evictArith (cap : Nat) (bad : List Nat) (needed : Nat) : List Entry → Nat → List Arith
+  | [], size =>
+    .sub cap size ::
+      (if sub64 cap size < needed then [.sub needed (sub64 cap size)] else [])
+  | b :: rest, size =>
+    .sub cap size ::
+      (if sub64 cap size < needed then
+        match sizeOf? bad b with
+        | none => []
+        | some es => .sub size es :: evictArith cap bad needed rest (sub64 size es)
+      else [])
+
+/-- The arithmetic of one call, in execution order, following `step` clause by
+clause: `Put` on a resident key computes `c.size -= es`, then `evict(vs)`, then
+(if that succeeded) `c.size += vs`; `LoadAndDelete` computes `c.size -= vs`.
+(`vs > c.capacity` and `needed > c.capacity` are comparisons, not arithmetic.) -/
+def stepArith (s : State) : Op → List Arith
+  | .put k vid sz =>
+    if s.locked then [] else
+    if vid ∈ s.bad then [] else
+    if sz > s.cap then [] else
+    match idxLoad s.idx k with
+    | some el =>
+      match sizeOf? s.bad el with
+      | none => []
+      | some es =>
+        let r := evictLoop s.cap s.bad sz (s.ll.erase el) (sub64 s.size es) (idxDelete s.idx k) false
+        .sub s.size es :: evictArith s.cap s.bad sz (s.ll.erase el) (sub64 s.size es) ++
+          (if r.2.2.2.2 then [.add r.2.1 sz] else [])
+    | none =>
+      let r := evictLoop s.cap s.bad sz s.ll s.size s.idx false
+      evictArith s.cap s.bad sz s.ll s.size ++ (if r.2.2.2.2 then [.add r.2.1 sz] else [])
+  | .del k =>
+    if s.locked then [] else
+    match idxLoad s.idx k with
+    | none => []
+    | some el =>
+      match sizeOf? s.bad el with
+      | none => []
+      | some vs => [.sub s.size vs]
+  | _ => []
+
+/-- every `uint64` operation of a whole operation sequence -/
+def runArith (s : State) : List Op → List Arith
+  | [] => []
+  | o :: os => stepArith s o ++ runArith (step s o).1 os
+
+/-- Go `a + b` on `uint64` WITH the wrap-around, for operands below 2^64
+(written without `%`, see the note at `sub64`). -/
+def wadd (a b : Nat) : Nat := if a + b < two64 then a + b else a + b - two64
+/-- Go `a - b` on `uint64` WITH the wrap-around, for operands below 2^64. -/
+def wsub (a b : Nat) : Nat := if b ≤ a then a - b else a + two64 - b
+
+/-- A `uint64` expression over the three quantities `evict` works with. -/
+inductive U64Expr where
+  | cap | size | needed
+  | add (a b : U64Expr)
+  | sub (a b : U64Expr)
+deriving DecidableEq, Repr
+
+def U64Expr.eval (cap size needed : Nat) : U64Expr → Nat
+  | .cap => cap
+  | .size => size
+  | .needed => needed
+  | .add a b => wadd (a.eval cap size needed) (b.eval cap size needed)
+  | .sub a b => wsub (a.eval cap size needed) (b.eval cap size needed)
+
+/-- A comparison of two `uint64` expressions (a loop or `if` condition). -/
+inductive CmpExpr where
+  | lt (a b : U64Expr) | le (a b : U64Expr) | gt (a b : U64Expr) | ge (a b : U64Expr)
+deriving DecidableEq, Repr
+
+/-- the condition holds for these word values -/
+def CmpExpr.holds (cap size needed : Nat) : CmpExpr → Prop
+  | .lt a b => a.eval cap size needed < b.eval cap size needed
+  | .le a b => a.eval cap size needed ≤ b.eval cap size needed
+  | .gt a b => a.eval cap size needed > b.eval cap size needed
+  | .ge a b => a.eval cap size needed ≥ b.eval cap size needed
+
+instance (cap size needed : Nat) (c : CmpExpr) : Decidable (c.holds cap size needed) := by
+  cases c <;> unfold CmpExpr.holds <;> infer_instance
+
 end Neutrino.Lru
